@@ -163,6 +163,25 @@ class LineCheck:
             cases = self.cases(ctx)
             st = self.correspond(ctx, cases)
             self.judge(ctx, cases, st, pst)
+            # thorough tier: further rounds with fresh seeds until the time budget is used (or something fails)
+            self.rounds = 1
+            if ctx.tier == "thorough":
+                budget = int(os.environ.get("VERIF_THOROUGH_SECONDS", "600"))
+                seed0 = ctx.seed
+                while time.time() - ctx.t0 < budget and not ctx.verdict.violations and self.rounds < 50:
+                    ctx.seed = seed0 + 1000 * self.rounds
+                    c2 = self.cases(ctx)
+                    s2 = self.correspond(ctx, c2)
+                    self.judge(ctx, c2, s2, pst)
+                    off = len(cases)
+                    cases = cases + c2
+                    for k in ("div", "crashes", "monfail"):
+                        st[k] = st[k] + [(off + i, w) for i, w in s2[k]]
+                    st["n"] += s2["n"]
+                    st["nontrivial"] += s2["nontrivial"]
+                    st["mres"], st["ires"] = [], []
+                    self.rounds += 1
+                ctx.seed = seed0
         if pst["broken"] and not ctx.verdict.violations and not ctx.verdict.known:
             ctx.verdict.report("proof", "proof broken",
                                "property %s: proof obligations no longer check.\n%s\n%s\nno failing input was found by the correspondence runs (%d cases).\n"
@@ -240,7 +259,7 @@ class LineCheck:
             "divergences": len(st["div"]) if st else 0,
             "impl_crashes": len(st["crashes"]) if st else 0,
             "monitor_failures": len(st["monfail"]) if st else 0,
-            "input_distribution": self.distribution(cases),
+            "input_distribution": dict(self.distribution(cases), rounds_with_fresh_seeds=getattr(self, "rounds", 1)),
         }
         vlib.write_evidence(self.pid, ctx.tier, ctx.seed, cov, time.time() - ctx.t0,
                             len(ctx.verdict.violations), list(self.assumptions))
